@@ -170,3 +170,78 @@ Proof.
   - lia.
   - intros e Hin _. left. exact Hin.
 Qed.
+
+(** ---- soundness and isolation for the serial engine *)
+Lemma swindow_sound : forall fuel p sends W T pend,
+  match swindow fuel p sends W T pend with
+  | WProbe T' pr pend' => (exists e0, In e0 pend /\ e_kind e0 <> 1 /\ matches e0 pr) /\ (forall x, In x pend' -> In x pend)
+  | WTimeout T' pend' => forall x, In x pend' -> In x pend
+  | _ => True
+  end.
+Proof.
+  induction fuel as [|fuel IH]; intros p sends W T pend; cbn [swindow]; [exact I|].
+  destruct (T =? W); [exact I|]. destruct (W <? T); [auto|].
+  destruct (best (lookup sends) pend 0) as [[[a i] e0]|] eqn:B.
+  - pose proof (best_nth _ _ _ _ _ _ B) as Bn. rewrite Nat.sub_0_r in Bn. pose proof (nth_error_In _ _ Bn) as Bin.
+    destruct (a <=? T + tp_poll p).
+    + destruct (e_kind e0 =? 1) eqn:K.
+      * specialize (IH p sends W (Z.max T a) (remove_nth i pend)).
+        destruct (swindow fuel p sends W (Z.max T a) (remove_nth i pend)) as [T' pr pend'|T' pend'| |]; try exact I.
+        -- destruct IH as [[e1 [H1 [H2 H3]]] H4]. split; [exists e1; split; [eapply remove_nth_in; eauto|auto]|].
+           intros x Hx. eapply remove_nth_in; eauto.
+        -- intros x Hx. eapply remove_nth_in; eauto.
+      * split; [exists e0; split; [exact Bin|split; [apply Z.eqb_neq; exact K|unfold matches; cbn; auto]]|].
+        intros x Hx. eapply remove_nth_in; eauto.
+    + specialize (IH p sends W (T + tp_poll p) pend). destruct (swindow fuel p sends W (T + tp_poll p) pend); exact IH.
+  - specialize (IH p sends W (T + tp_poll p) pend). destruct (swindow fuel p sends W (T + tp_poll p) pend); exact IH.
+Qed.
+
+Lemma srun_sound : forall n p i s pend sends rs acc r (script : list entry),
+  (forall e, In e pend -> In e script) ->
+  (forall q, In q acc -> exists e, In e script /\ e_kind e <> 1 /\ matches e q) ->
+  srun n p i s pend sends rs acc = TDone r ->
+  forall q, In q (tr_accepted r) -> exists e, In e script /\ e_kind e <> 1 /\ matches e q.
+Proof.
+  induction n as [|n IH]; intros p i s pend sends rs acc r script Hp Ha H; cbn [srun] in H.
+  - injection H as <-. cbn [tr_accepted]. intros q Hq. apply in_rev in Hq. auto.
+  - pose proof (swindow_sound (wfuel p pend) p ((i, s) :: sends) (s + tp_timeout p) s pend) as WS.
+    destruct (swindow (wfuel p pend) p ((i, s) :: sends) (s + tp_timeout p) s pend) as [T pr pend'|T pend'| |]; try discriminate.
+    + destruct WS as [[e0 [H1 [H2 H3]]] H4].
+      assert (Ha' : forall q, In q (pr :: acc) -> exists e, In e script /\ e_kind e <> 1 /\ matches e q).
+      { intros q [<-|Hq]; [exists e0; auto|auto]. }
+      destruct (negb (valid_probe (tp_first p) (tp_last p) pr)); [discriminate|].
+      destruct (p_dest pr).
+      * injection H as <-. unfold tr_accepted. intros q Hq. apply (in_rev (pr :: acc) q) in Hq. auto.
+      * eapply IH; [| |exact H]; auto.
+    + eapply IH; [| |exact H]; auto.
+Qed.
+
+Theorem serial_accepts_only_script_replies p script r :
+  serial_run p script = TDone r ->
+  forall q, In q (tr_accepted r) -> exists e, In e script /\ e_kind e <> 1 /\ matches e q.
+Proof.
+  unfold serial_run. destruct (params_ok p); [|discriminate]. cbn [negb]. intros H.
+  eapply srun_sound; [| |exact H]; [auto|intros q []].
+Qed.
+
+(** a shared wire, serial engine: foreign packets (noise for this run's driver) interleaved in any way with the run's
+    own replies — one per TTL, each within its window — neither enter the result nor keep an own reply out of it *)
+Theorem shared_wire_isolation_serial p own foreign shared r :
+  (forall e, In e shared <-> In e own \/ In e foreign) ->
+  (forall e, In e foreign -> e_kind e = 1) ->
+  (forall e, In e own -> e_kind e = 0 /\ 0 <= e_delay e <= tp_timeout p) ->
+  NoDup (R shared) ->
+  serial_run p shared = TDone r ->
+  (forall q, In q (tr_accepted r) -> exists e, In e own /\ matches e q)
+  /\ (forall e s0, In e own -> In (e_ttl e, s0) (tr_sends r) -> exists q, In q (tr_accepted r) /\ matches e q).
+Proof.
+  intros Hs Hf Ho HN H. split.
+  - intros q Hq. destruct (serial_accepts_only_script_replies p shared r H q Hq) as [e [He [Hk Hm]]].
+    exists e. split; [|exact Hm]. apply Hs in He. destruct He as [He|He]; [exact He|]. apply Hf in He. contradiction.
+  - intros e s0 He Hsnd. destruct (Ho e He) as [Hk Hd].
+    eapply serial_accepts_every_reply_in_its_window; [exact H| |exact HN| |exact Hk|exact Hsnd].
+    + intros x Hx. apply Hs in Hx. destruct Hx as [Hx|Hx].
+      * destruct (Ho x Hx) as [K D]. split; [left; exact K|intros _; exact D].
+      * split; [right; apply Hf; exact Hx|intros K0; rewrite (Hf x Hx) in K0; discriminate].
+    + apply Hs. left. exact He.
+Qed.
